@@ -287,6 +287,7 @@ func init() {
 	addScoped("C06", "O2", in("zipkin", "Span", "span", "otlp"), o2)
 	addScoped("C03", "O2", func(k string) bool { return hasAny(k, "writer/") && !hasAny(k, "zipkin") }, o2)
 	addScoped("C09", "O2", in("reader/"), o2)
+	addScoped("C11", "D8", in("reader/traceql/"), "(D8) terms share a slot of the condition bit set only under a faithful rendering of the term (no decoding function in the key).")
 	addScoped("C14", "H5", in(""), "(H5) no package-level variable holds SQL builder objects, so a planner that rewrites columns in place cannot change later translations.")
 	properties["C01"].Filter = keepIf(func(rule, key string) bool { return rule != "O1" || strings.HasPrefix(key, "writer/") })
 	properties["C02"].Filter = keepIf(func(rule, key string) bool { return rule != "O1" || strings.HasPrefix(key, "writer/") })
